@@ -109,6 +109,7 @@ def dump_tree(t):
         i += 1
         if i > 10000:
             raise RuntimeError('runaway leaf chain')
+    node = freeze = None    # break the closure cycles: they would keep the tree nodes alive until a collection
     return (root, tuple(leaves))
 
 
@@ -136,6 +137,7 @@ def contents_of(c, is_map):
             for ch in n[1][::2]:
                 rec(ch)
     rec(root)
+    rec = None      # break the closure cycle
     return out
 
 
@@ -229,7 +231,10 @@ def walk(c, is_map, max_leaf=None, max_internal=None):
             probs.append('firstbucket %r is not the leftmost leaf %r' % (n[2], leftmost))
         return leftmost
 
-    rec(root, None, None, True)
+    try:
+        rec(root, None, None, True)
+    finally:
+        rec = None      # break the closure cycle
     if len(set(order)) != len(order):
         probs.append('a leaf is reachable twice by descent')
     # chain
@@ -315,6 +320,7 @@ def shape_stats(c):
         for x in ch:
             rec(x, depth + 1)
     rec(root, 1)
+    rec = minkey = None     # break the closure cycles
     return st
 
 
@@ -331,4 +337,7 @@ def has_lone_leaf_node(c):
         if not is_root and len(ch) == 1 and ch[0][0] == 'L':
             return True
         return any(rec(x, False) for x in ch)
-    return rec(c[0], True)
+    try:
+        return rec(c[0], True)
+    finally:
+        rec = None      # break the closure cycle (no cyclic garbage: the reference ledgers run with the collector off)
